@@ -38,6 +38,8 @@ unsafe impl<T> Sync for Shared<T> {}
 enum TStep {
     Suspend,
     Delay(u64),
+    /// the task cancels its own worker coroutine (Suspender::cancel)
+    SelfCancel,
 }
 
 // ====================================================================== C11
@@ -45,30 +47,33 @@ fn c11(seed: u64, case: u64, out: &Out) {
     let mut rng = Rng::for_case(seed ^ 0xC11, case);
     // min_size > 0 is not explored: an idle core worker never yields (it blocks 1 ms and polls again inside one scheduling pass),
     // so a pass with nothing to do would not return without the preemptive feature - outside this property
-    let (min, max) = *rng.pick(&[(0usize, 1usize), (0, 2), (0, 4), (0, 8), (0, 16)]);
+    let (min, max) = *rng.pick(&[(0usize, 1usize), (0, 2), (0, 2), (0, 4), (0, 8), (0, 16)]);
     let keep_alive_ms = *rng.pick(&[0u64, 5]);
     let ntasks = rng.usize(1, 24);
+    // half of the cases are built so that workers end abnormally while tasks are still queued: few workers, long delays, early cancels
+    let pressure = case % 2 == 1;
     let name = format!("c11pool-{seed}-{case}");
     *PREFIX.lock().unwrap() = format!("{name}@");
     open_coroutine_core::verif::set_observer(Some(observer));
     let progs: Vec<(Vec<TStep>, bool)> = (0..ntasks)
         .map(|_| {
-            let k = rng.usize(0, 3);
-            ((0..k).map(|_| if rng.chance(1, 2) { TStep::Suspend } else { TStep::Delay(rng.range(5, 60)) }).collect(), rng.chance(1, 6))
+            let k = if pressure { rng.usize(1, 3) } else { rng.usize(0, 3) };
+            ((0..k).map(|_| if rng.chance(if pressure { 1 } else { 2 }, 4) { TStep::Suspend } else if pressure && rng.chance(1, 8) { TStep::SelfCancel } else { TStep::Delay(rng.range(5, 60)) }).collect(), rng.chance(1, 6))
         })
         .collect();
     // cancel plan: (after pass p, task index)
-    let ncancel = rng.usize(0, 1 + ntasks / 3);
-    let cancels: Vec<(usize, usize)> = (0..ncancel).map(|_| (rng.usize(0, 4), rng.usize(0, ntasks - 1))).collect();
+    let ncancel = if pressure { rng.usize(1, 1 + ntasks / 2) } else { rng.usize(0, 1 + ntasks / 3) };
+    let cancels: Vec<(usize, usize)> = (0..ncancel).map(|_| (rng.usize(0, if pressure { 2 } else { 4 }), rng.usize(0, ntasks - 1))).collect();
     out.begin(case, jobj! {"min_size" => min, "max_size" => max, "keep_alive_ms" => keep_alive_ms, "tasks" => ntasks,
         "programs" => progs.iter().take(10).map(|p| format!("{:?}{}", p.0, if p.1 {" panic"} else {""})).collect::<Vec<_>>(),
         "cancel_requests_after_pass" => cancels.iter().map(|(p, t)| format!("pass {p}: task {t}")).collect::<Vec<_>>()});
     let mut pool = CoroutinePool::new(name, 64 * 1024, min, max, keep_alive_ms * 1_000_000);
     let over_max = Arc::new(AtomicUsize::new(0));
     let finished = Arc::new(AtomicUsize::new(0));
+    let self_cancelled = Arc::new(AtomicUsize::new(0));
     let mut ids = vec![];
     for (i, (steps, panics)) in progs.iter().enumerate() {
-        let (steps, panics, om, fin) = (steps.clone(), *panics, over_max.clone(), finished.clone());
+        let (steps, panics, om, fin, sc) = (steps.clone(), *panics, over_max.clone(), finished.clone(), self_cancelled.clone());
         let id = pool
             .submit_task(
                 None,
@@ -83,6 +88,10 @@ fn c11(seed: u64, case: u64, out: &Out) {
                             match *st {
                                 TStep::Suspend => s.suspend(),
                                 TStep::Delay(ms) => s.delay(Duration::from_millis(ms)),
+                                TStep::SelfCancel => {
+                                    sc.fetch_add(1, Ordering::SeqCst);
+                                    s.cancel()
+                                }
                             }
                         }
                     }
@@ -132,7 +141,7 @@ fn c11(seed: u64, case: u64, out: &Out) {
             break;
         }
         let done = finished.load(Ordering::SeqCst);
-        if done + cancelled.len() >= ntasks && pool.is_empty() {
+        if done + cancelled.len() + self_cancelled.load(Ordering::SeqCst) >= ntasks && pool.is_empty() {
             // a cancelled worker may still be parked in a delay: it is discarded when the delay is over (at most 3 x 60 ms)
             idle_passes += 1;
             if (idle_passes > 8 && running <= min) || idle_passes > 150 {
@@ -158,7 +167,7 @@ fn c11(seed: u64, case: u64, out: &Out) {
         viol = Some(("running-size-not-zero-after-stop".into(), format!("{}", pool.get_running_size())));
     }
     let obs = jobj! {"passes" => pass, "quiescent_samples" => samples, "worker_coroutines_created" => CREATED.load(Ordering::SeqCst), "max_running_seen" => max_running_seen,
-        "tasks_finished" => finished.load(Ordering::SeqCst), "tasks_cancelled" => cancelled.len(), "stop_ms" => stop_ms};
+        "tasks_finished" => finished.load(Ordering::SeqCst), "tasks_cancelled" => cancelled.len(), "tasks_that_cancelled_themselves" => self_cancelled.load(Ordering::SeqCst), "stop_ms" => stop_ms};
     let fp = format!("{min}|{max}|{keep_alive_ms}|{ntasks}|{:?}", cancels);
     let nontrivial = CREATED.load(Ordering::SeqCst) >= 2 || !cancels.is_empty();
     std::mem::forget(pool); // Drop would re-run stop() and assert; the verdict is already in
